@@ -39,7 +39,7 @@
 //!  layout|rejected|reported-size-wrong|hlsl / |metal
 //!  layout|rejected|reported-size-wrong|derived-struct|hlsl / |metal   ... and the flat declaration gets another verdict
 //!  layout|rejected|reported-size-wrong|two-uses   the reported sizes are the true sizes of neither struct
-//!  harness|generated-program-rejected, harness|e2e-verdict-differs   machinery cross-checks
+//!  harness|generated-program-rejected   unjudged (the generated program does not reach the checker); layout|e2e-verdict-differs   compile() and check_layout disagree
 //!
 //! The class names describe the first thing that differs between the two *reference* layouts, not rssl's internal
 //! cause. The recorded representative of a signature is the simplest struct (see `complexity`), not the first index.
@@ -816,26 +816,36 @@ pub enum Verdict {
 }
 
 fn parse_layout_message(msg: &str) -> Option<Verdict> {
-    if msg.contains("struct has unknown size") {
+    // tolerant of the wording: a layout diagnostic either says the size is unknown or reports `size=N align=N` twice,
+    // first for HLSL and then for Metal (or the other way round when it says `on Metal` first)
+    let line = msg.lines().find(|l| l.contains("size"))?;
+    if line.contains("unknown size") || line.contains("unknown layout") {
         return Some(Verdict::Unknown);
     }
-    let at = msg.find("struct has size=")?;
-    let line = msg[at..].lines().next()?;
-    // exactly the format of LayoutError::MismatchedLayout; anything after " on Metal" is ignored
-    fn num<'a>(s: &'a str, prefix: &str) -> Option<(u32, &'a str)> {
-        let s = s.strip_prefix(prefix)?;
-        let n = s.chars().take_while(|c| c.is_ascii_digit()).count();
-        Some((s[..n].parse().ok()?, &s[n..]))
+    fn numbers_after(line: &str, key: &str) -> Vec<u32> {
+        let mut out = Vec::new();
+        let mut rest = line;
+        while let Some(p) = rest.find(key) {
+            let tail = &rest[p + key.len()..];
+            let n = tail.chars().take_while(|c| c.is_ascii_digit()).count();
+            if let Ok(v) = tail[..n].parse() {
+                out.push(v);
+            }
+            rest = &tail[n..];
+        }
+        out
     }
-    let (n0, rest) = num(line, "struct has size=")?;
-    let (n1, rest) = num(rest, " align=")?;
-    let (n2, rest) = num(rest, " on HLSL but size=")?;
-    let (n3, rest) = num(rest, " align=")?;
-    if !rest.starts_with(" on Metal") {
+    let sizes = numbers_after(line, "size=");
+    let aligns = numbers_after(line, "align=");
+    if sizes.len() < 2 || aligns.len() < 2 {
         return None;
     }
-    let nums = [n0, n1, n2, n3];
-    Some(Verdict::Mismatch { hs: nums[0], ha: nums[1], ms: nums[2], ma: nums[3] })
+    let metal_first = match (line.find("on Metal"), line.find("on HLSL")) {
+        (Some(m), Some(h)) => m < h,
+        _ => false,
+    };
+    let (h, m) = if metal_first { (1, 0) } else { (0, 1) };
+    Some(Verdict::Mismatch { hs: sizes[h], ha: aligns[h], ms: sizes[m], ma: aligns[m] })
 }
 
 /// real preprocess + parse + type_check + ir::layout_checker::check_layout, diagnostic rendered like compile() does
@@ -1150,7 +1160,7 @@ fn check_case_inner(ty: &Ty, form: Form, inh: Inh, e2e: &[Cfg], env: &Env, acc: 
                 };
                 if !same {
                     acc.violation(Violation {
-                        signature: "harness|e2e-verdict-differs".into(),
+                        signature: "layout|e2e-verdict-differs".into(),
                         detail: format!("{} as {}: check_layout called directly says {:?}, compile() for {} says {:?}", ty.expr(), form.name(), v, cfg.name(), ve),
                         replay: replay_body(ty, form, inh, e2e),
                     });
